@@ -36,6 +36,7 @@ def step (s : DState) (line : String) : DState × String :=
   | ["gen", t] => (s, genLine t)
   | ["heap", o, sc] => (s, heapLine o sc)
   | ["life", o] => (s, lifeLine o)
+  | ["lifegc", o, sc] => (s, lifeGcLine o sc)
   | ["flag", n, o] => (s, flagLine n o)
   | ["cli", c, a, e] => (s, cliLine c a e)
   | ["sem", p, e, a] => (s, semLine p e a)
